@@ -71,11 +71,26 @@ def kinds(b):
     K.append(Kind("assert_positive()", 1, lambda ns, ops, prm: ops[0].assert_positive(), lambda v, prm: 0 <= v[0] < lim))
     K.append(Kind("assert_positive(n)", 1, lambda ns, ops, prm: ops[0].assert_positive(prm),
                   lambda v, prm: 0 <= v[0] < (1 << prm), params=list(range(0, b + 3))))
+    from harness.intlike import IntLike
+    K.append(Kind("assert_positive(integer-like n)", 1, lambda ns, ops, prm: ops[0].assert_positive(IntLike(prm)),
+                  lambda v, prm: 0 <= v[0] < (1 << prm), params=[0, 1, b - 1, b + 1]))
     K.append(Kind("to_bits(n)", 1, lambda ns, ops, prm: ops[0].to_bits(prm),
                   lambda v, prm: 0 <= v[0] < (1 << prm), params=list(range(0, b + 3))))
     K.append(Kind("assert_range(lo,hi)", 1, lambda ns, ops, prm: ops[0].assert_range(prm[0], prm[1]),
                   lambda v, prm: prm[0] <= v[0] < prm[1],
-                  params=[(0, 1), (0, 3), (-2, 2), (1, lim), (-lim + 1, 1), (2, 2), (0, lim - 1)]))
+                  params=[(0, 1), (0, 3), (-2, 2), (1, lim), (-lim + 1, 1), (2, 2), (0, lim - 1), (0, lim + 2), (-1, lim + 1), (0, 2 * lim)]))
+    # the same assertions with a caller-supplied error message (err=...): the message must not change what is enforced
+    K.append(Kind("assert_range(lo,hi,err)", 1, lambda ns, ops, prm: ops[0].assert_range(prm[0], prm[1], err="custom message"),
+                  lambda v, prm: prm[0] <= v[0] < prm[1],
+                  params=[(0, 3), (1, lim), (0, lim + 2), (-1, lim + 1), (0, 2 * lim), (-lim, lim), (-lim - 1, 2)]))
+    K.append(Kind("assert_positive(n,err)", 1, lambda ns, ops, prm: ops[0].assert_positive(prm, err="custom message"),
+                  lambda v, prm: 0 <= v[0] < (1 << prm), params=[0, 1, b, b + 1]))
+    for nm, rel in cmpops:
+        K.append(Kind("assert_%s(x,const,err)" % nm, 1,
+                      (lambda n: lambda ns, ops, prm: getattr(ops[0], "assert_" + n)(prm, err="custom message"))(nm),
+                      (lambda r: lambda v, prm: r(v[0], prm))(rel), params=[-lim, 0, 1, lim]))
+    K.append(Kind("assert_zero(err)", 1, lambda ns, ops, prm: ops[0].assert_zero(err="custom message"), lambda v, prm: v[0] == 0))
+    K.append(Kind("assert_nonzero(err)", 1, lambda ns, ops, prm: ops[0].assert_nonzero(err="custom message"), lambda v, prm: v[0] != 0))
     K.append(Kind("fxp.assert_range(lo,hi)", 1,
                   lambda ns, ops, prm: ns.fx.LinCombFxp(ops[0], False).assert_range(prm[0], prm[1]),
                   lambda v, prm, _r=None: prm[0] * (1 << env.bind().fx.resolution) <= v[0] < prm[1] * (1 << env.bind().fx.resolution),
